@@ -29,6 +29,17 @@ EDITS = [
     ("C08", "bcrypt.needs_update untouched; parse_mc2 local renamed", "passlib/utils/handlers.py", "        salt, chk = parts\n        return salt, chk or None\n", "        salt_part, chk = parts\n        return salt_part, chk or None\n"),
     ("C01", "GenericHandler.verify: local renamed", "passlib/utils/handlers.py", "        chk = self.checksum\n        if chk is None:\n            raise exc.MissingDigestError(cls)\n        return consteq(self._calc_checksum(secret), chk)", "        stored = self.checksum\n        if stored is None:\n            raise exc.MissingDigestError(cls)\n        return consteq(self._calc_checksum(secret), stored)"),
     ("C17", "_init_htpasswd_context: local renamed", "passlib/apache.py", "preferred", "wanted"),
+    ("C13", "_decode_bytes: cleaning and encoding in two statements", "passlib/totp.py", "    key = _clean_re.sub(\"\", key).encode(\"utf-8\")  # strip whitespace & hypens\n", "    key = _clean_re.sub(\"\", key)\n    key = key.encode(\"utf-8\")\n"),
+    ("C16", "save: recursion replaced by the same two statements", "passlib/apache.py", "            self.save(self._path)\n            self._mtime = os.path.getmtime(self._path)\n", "            with open(self._path, \"wb\") as fh:\n                fh.writelines(self._iter_lines())\n            self._mtime = os.path.getmtime(self._path)\n"),
+    ("C18", "unix_disabled.using: guard written positively", "passlib/handlers/misc.py", "            if not cls.identify(marker):\n                raise ValueError(f\"invalid marker: {marker!r}\")\n            subcls.default_marker = marker\n", "            if cls.identify(marker):\n                subcls.default_marker = marker\n            else:\n                raise ValueError(f\"invalid marker: {marker!r}\")\n"),
+    ("C02", "msdcc2: user name folded in a statement of its own", "passlib/handlers/windows.py", "        user = to_unicode(user, \"utf-8\", param=\"user\").lower().encode(\"utf-16-le\")\n        tmp = md4(md4(secret).digest() + user).digest()\n        return pbkdf2_hmac", "        user = to_unicode(user, \"utf-8\", param=\"user\").lower()\n        user = user.encode(\"utf-16-le\")\n        tmp = md4(md4(secret).digest() + user).digest()\n        return pbkdf2_hmac"),
+    ("C02", "grub_pbkdf2_sha512: keyword arguments", "passlib/handlers/pbkdf2.py", "pbkdf2_hmac(\"sha512\", secret, self.salt, self.rounds, 64)", "pbkdf2_hmac(\"sha512\", secret, self.salt, rounds=self.rounds, keylen=64)"),
+    ("C01", "safe_crypt: decoded text kept in a second variable", "passlib/utils/__init__.py", "            try:\n                secret = secret.decode(\"utf-8\")\n            except UnicodeDecodeError:\n                return None\n", "            try:\n                text = secret.decode(\"utf-8\")\n            except UnicodeDecodeError:\n                return None\n            secret = text\n"),
+    ("C17", "PrefixWrapper.identify: prefix read once", "passlib/utils/handlers.py", "        hash = to_unicode_for_identify(hash)\n        if not hash.startswith(self.prefix):\n            return False\n", "        hash = to_unicode_for_identify(hash)\n        prefix = self.prefix\n        if not hash.startswith(prefix):\n            return False\n"),
+    ("C04", "bcrypt_sha256 update check: class read once", "passlib/handlers/bcrypt.py", "        if self.version < type(self).version:\n            return True\n", "        configured = type(self).version\n        if self.version < configured:\n            return True\n"),
+    ("C15", "to_dict: wallet test nested", "passlib/totp.py", "        if encrypt is None:\n            wallet = self.wallet\n            encrypt = wallet and wallet.has_secrets\n", "        if encrypt is None:\n            wallet = self.wallet\n            encrypt = wallet.has_secrets if wallet else wallet\n"),
+    ("C20", "libpass validate_rounds: chained comparison", "libpass/_utils/validation.py", "    if rounds < min or rounds > max:\n", "    if not (min <= rounds <= max):\n"),
+    ("C06", "libpass salt length: logarithm in a variable", "libpass/_salt.py", "    length = math.ceil(entropy_bits / math.log2(len(chars)))\n", "    bits_per_symbol = math.log2(len(chars))\n    length = math.ceil(entropy_bits / bits_per_symbol)\n"),
     ("C20", "libpass needs_update (pbkdf2): early return rewritten", "libpass/hashers/pbkdf2.py", "        if not hash_info:\n            return True\n        return hash_info.rounds != self._rounds", "        if hash_info is None:\n            return True\n        return self._rounds != hash_info.rounds"),
 ]
 args = sys.argv[1:]
